@@ -11,9 +11,12 @@ PROP = "C11"
 GO_PKGS = [("c11drv", True)]
 MODEL_VO = ["theories/C11/Corr.vo"]
 ALLOWED_AXIOMS = []
-SCOPE = ("partial: theorems of Properties/C11.v hold for every history of the modelled operations (lock, top-up, superfluid delegate / undelegate / "
-         "unbond / undelegate-and-unbond incl. partial, begin-unlock, withdraw, time advance, end-block cleanup, epoch refresh with arbitrary new "
-         "multipliers) over any number of validators, owners, denoms; NOT covered: slashing (x/superfluid/keeper/slash.go is unmodelled), x/staking is a "
+SCOPE = ("partial: theorems of Properties/C11.v hold for every history of the modelled operations (lock, top-up, MsgLockTokens, lock-and-delegate, "
+         "create-position-and-delegate, superfluid delegate / undelegate / unbond / undelegate-and-unbond incl. partial, begin-unlock (whole, partial, all, "
+         "force), withdraw, time advance, end-block cleanup, epoch refresh with arbitrary new multipliers) over any number of validators, owners, denoms; "
+         "NOT covered by the theorems: slashing (x/superfluid/keeper/slash.go: the model function `slash` mirrors it for gamm-share locks and is compared "
+         "with the real app in the correspondence run, but it is an environment transition outside the histories the theorems quantify over; "
+         "supply neutrality is refuted under slashing: C11_supply_neutral_under_slash_refuted, finding C11-F2), x/staking is a "
          "hand model of an SDK module (bonded validators only, no unbonding queue, no rewards), exchange rate 1:1 is a hypothesis of refresh_exact and of the "
          "drift bound, removal of a superfluid asset / pool without OSMO (epoch hook returns early), governance parameter changes, LegacyDec range panics, "
          "the 1000-lock bound of WithdrawMaturedLocks, concentrated-liquidity position migration messages. The literal drift bound "
@@ -115,6 +118,8 @@ def gen_case(r, tier, force=None):
     ops = []
     cur_mult = [dec_raw(dn["mult"]) if dn["kind"] == "gamm" else P18 for dn in denoms]
     dusty = r.chance(1, 4)      # histories that live at the rounding boundary
+    # validator slashing (outside the theorems' scope; the model function [slash] is compared): gamm-share denoms only
+    slashing = r.chance(1, 5) and all(dn["kind"] == "gamm" for dn in denoms)
     swapped = False
 
     def pick(pred):
@@ -128,6 +133,9 @@ def gen_case(r, tier, force=None):
 
     for _ in range(nops):
         x = r.below(100)
+        if slashing and locks and r.chance(1, 20):
+            ops.append({"k": "slash", "v": r.below(nval), "amt": str(r.choice([P18 // 10000, P18 // 100, P18 // 20, P18 // 10, P18 // 3, r.range(1, P18 // 2)]))})
+            continue
         if x < 15 or not locks:
             d = r.below(nd)
             dur = r.choice([U, U, U, 2 * U, U + 1, U - 1, 3600 * SEC])
@@ -319,6 +327,15 @@ def witness_f1():
     return {"nval": 2, "denoms": [{"kind": "gamm", "mult": "20", "sf": True}], "rf": "0.5", "unb": 0, "vtok": [], "force": [], "ops": ops}
 
 
+# deterministic witness of finding C11-F2 (a validator with superfluid stake is slashed by 10%)
+def witness_f2():
+    U = DEFAULT_UNB
+    ops = [{"k": "lock", "o": 0, "d": 0, "amt": "1000000", "dur": U}, {"k": "sfdel", "o": 0, "id": 1, "v": 0},
+           {"k": "epoch", "mode": "hook"}, {"k": "slash", "v": 0, "amt": str(P18 // 10)}, {"k": "epoch", "mode": "hook"},
+           {"k": "sfundel", "o": 0, "id": 1}, {"k": "epoch", "mode": "hook"}]
+    return {"nval": 2, "denoms": [{"kind": "gamm", "mult": "20", "sf": True}], "rf": "0.5", "unb": 0, "vtok": [], "force": [], "ops": ops}
+
+
 # ---------------------------------------------------------------------------------------------
 # observation rows
 # ---------------------------------------------------------------------------------------------
@@ -472,14 +489,18 @@ def coq_case(c, o):
             if len(lk) != 1:
                 return None
             ops.append("OLock %s %s %s %s" % (zlit(op["o"]), zlit(op["d"]), zlit(lk[0][3]), zlit(op["dur"])))
+        elif k == "slash":
+            od = "[" + "; ".join("(%s, %s)" % (zlit(x // nv), zlit(x % nv)) for x in o["ord"][ei]) + "]"
+            ops.append("ESlash %s %s %s" % (od, zlit(op["v"]), zlit(int(op["amt"]))))
         else:
             order = []
             if k == "epoch":
                 order = o["ord"][ei]
             ops.append(coq_op(op, prev, c, order))
-        if k == "epoch":
+        if k in ("epoch", "slash"):
             ei += 1
         keep.append(i + 1)
+    ops = [x if x.startswith("ESlash") else "EOp (%s)" % x for x in ops]
     exp = []
     for i in keep:
         exp += model_flat(rows[i], nd, nv)
@@ -528,7 +549,17 @@ def oracle(c, o):
             bad("supply_query", i, "GetSupplyWithOffset %d != supply %d + offset %d" % (r["swo"], r["supply"], r["offset"]))
         # --- supply neutrality: only the harness's own funding of uosmo may change supply + offset
         funded = 0          # the harness mints all the OSMO it needs before the first observation
-        if r["swo"] - p["swo"] != funded:
+        if k == "slash" and r["code"] == 0:
+            # x/staking burns the slashed stake. Only the part that was real OSMO may leave the reported supply: the stake of
+            # the intermediary accounts was minted by the superfluid module behind the supply offset
+            vv_ = op["v"]
+            burned = p["vals"][vv_][0] - r["vals"][vv_][0]
+            synthetic = sum(p["acc"][(d_, vv_)]["tokens"] - r["acc"][(d_, vv_)]["tokens"] for d_ in range(nd))
+            n_acc = sum(1 for d_ in range(nd) if p["acc"][(d_, vv_)]["exists"])
+            if abs((r["swo"] - p["swo"]) + (burned - synthetic)) > 1 + n_acc:
+                bad("supply_neutral", i, "slash burnt %d from validator %d, of which %d was superfluid-minted stake behind the supply offset; "
+                    "the reported supply moved by %d instead of %d" % (burned, vv_, synthetic, r["swo"] - p["swo"], -(burned - synthetic)), op="slash")
+        elif r["swo"] - p["swo"] != funded:
             bad("supply_neutral", i, "OSMO supply with offset moved by %d (expected %d)" % (r["swo"] - p["swo"], funded), op=k)
         # --- failed messages leave everything unchanged
         if r["code"] != 0:
@@ -606,13 +637,21 @@ def oracle(c, o):
                 undelegating_op = k in ("sfundel", "sfundelunbond") and op["id"] == lid
                 if now_l is None:
                     bad("unlock_while_delegated", i, "delegated lock %d disappeared" % lid)
-                elif not undelegating_op and (now_l[5] != 0 or now_l[3] < plocks[lid][3]):
+                elif not undelegating_op and k != "slash" and (now_l[5] != 0 or now_l[3] < plocks[lid][3]):
                     bad("unlock_while_delegated", i, "delegated lock %d: end %d -> %d, amount %d -> %d" % (lid, plocks[lid][5], now_l[5], plocks[lid][3], now_l[3]))
         # --- stake tracks locks
         if r["code"] == 0 and k == "epoch":
             for key, a in r["acc"].items():
                 if a["exists"]:
                     budget[key] = sum(1 for cn in r["conns"] if (cn[1], cn[2]) == key)
+        if r["code"] == 0 and k == "slash":
+            # every lock behind the slashed validator loses trunc(amount * fraction): up to one share (worth mult * (1 - rf)) per lock
+            for key in list(r["acc"].keys()):
+                if key[1] == op["v"] and r["acc"][key]["exists"]:
+                    n_ = sum(1 for cn in r["conns"] if (cn[1], cn[2]) == key)
+                    # ... and the locks are slashed by the effective fraction rounded to 18 decimals while the stake shrinks by an
+                    # amount derived from the validator's integer power: a relative 1e-18 .. 1e-16 of the stake stays as residue
+                    budget[key] = budget.get(key, 0) + n_ * (r["mult"][key[0]] * (P18 - rf) // (P18 * P18) + 2) + r["acc"][key]["tokens"] // 10 ** 16 + 2
         if r["code"] == 0 and k == "topup" and op["id"] in conn:
             budget[conn[op["id"]]] = budget.get(conn[op["id"]], 0) + 2
         if r["code"] == 0 and k in ("locktokens", "lockdel") and r["newid"] in plocks and r["newid"] in pconn:
@@ -723,16 +762,17 @@ def correspond(tier, seed, model_ok):
     out = Outcome()
     r = Rng(seed)
     n = 56 if tier == "quick" else 700
-    cases = [witness_f1()]
+    cases = [witness_f1(), witness_f2()]
     cases += [gen_case(r.fork(i), tier) for i in range(n)]
     corpus = common.load_corpus(PROP)
     hist = {"ops": {}, "codes": {}}
     run_cases(corpus + cases, model_ok, out, "q", hist)
-    out.rule = ("cases = histories of 30-60 (thorough: 30-90) operations on a fresh full app with 2-3 bonded validators, 3 owners, 1-3 gamm / concentrated "
-                "share denoms (one possibly not superfluid), MinimumRiskFactor from {0, 1e-18, 0.07, 0.25, 1/3, 0.5, 0.9, 1}, unbonding time from {default, 1h, 14d}, "
-                "1/6 of the cases with validator exchange rates != 1, 1/4 living on dust amounts; non-trivial = at least one successful SuperfluidDelegate and one "
+    out.rule = ("cases = two deterministic witnesses (findings C11-F1, C11-F2) + histories of 30-60 (thorough: 30-90) operations on a fresh full app with 2-3 bonded "
+                "validators, 3 owners, 1-3 gamm / concentrated share denoms (one possibly not superfluid), MinimumRiskFactor from {0, 1e-18, 0.07, 0.25, 1/3, 0.5, 0.9, 1}, "
+                "unbonding time from {default, 1h, 14d}, 1/6 of the cases with validator exchange rates != 1, 1/4 living on dust amounts, 1/5 of the gamm-only cases with "
+                "validator slashes, 1/2 with a force-unlock whitelist; non-trivial = at least one successful SuperfluidDelegate and one "
                 "successful epoch refresh and an intermediary account alive at the end; distinct = distinct case JSON")
-    out.samples = [{"nval": c["nval"], "denoms": c["denoms"], "rf": c["rf"], "unb": c["unb"], "vtok": c["vtok"], "ops": c["ops"][:8]} for c in cases[1:4]]
+    out.samples = [{"nval": c["nval"], "denoms": c["denoms"], "rf": c["rf"], "unb": c["unb"], "vtok": c["vtok"], "ops": c["ops"][:8]} for c in cases[2:5]]
     out.distribution = {"op_kinds": hist["ops"], "result_codes": hist["codes"], "unclassified_errors": hist.get("unclassified", {}),
                         "ops_total": sum(hist["ops"].values()), "corpus_cases": len(corpus),
                         "rows_where_the_repos_own_TotalSuperfluidDelegationInvariant_reports_broken": "%d of %d" % (hist.get("repo_invariant_broken_rows", 0), hist.get("repo_invariant_rows", 0)),
